@@ -451,9 +451,27 @@ def check_timing(inp):
     starts = [(num - first_bar) * L + pos - pickup for num, pos in symbols]
     end = (last_bar - first_bar + 1) * L - pickup
     durs = [b - a for a, b in zip(starts, starts[1:] + [end])]
+    via = inp.get('via', 'formatter')
     try:
         with quiet():
-            score = ScoreFormatter(text).parse()
+            if via == 'formatter':
+                score = ScoreFormatter(text).parse()
+            elif via == 'from_annotation':
+                from musiclang import Score
+                score = Score.from_annotation(text)
+            else:
+                # the file entry point, with and without a final line end (seed C15-6 cut the last character of a
+                # file that does not end with a newline)
+                import tempfile, os
+                from musiclang import Score
+                body = text.rstrip('\n') + ('\n' if via == 'file-newline' else '')
+                fd, path = tempfile.mkstemp(suffix='.rntxt')
+                try:
+                    with os.fdopen(fd, 'w') as f:
+                        f.write(body)
+                    score = Score.from_annotation_file(path)
+                finally:
+                    os.unlink(path)
     except Exception as e:  # noqa
         return {'observed': f'{type(e).__name__}: {e}', 'expected': f'{len(symbols)} chords, total {frac_str(end)}'}
     got = [Fraction(c.duration) for c in score.chords]
@@ -524,9 +542,11 @@ def oracle(ctx):
     for _ in range(ctx.n(500, 8000)):
         text, struct = rand_annotation(rng, p_invalid=0.0)
         todo.append({'text': text, 'struct': struct})
+        if rng.random() < 0.25:
+            todo.append({'text': text, 'struct': struct, 'via': rng.choice(['file-no-newline', 'file-newline', 'from_annotation'])})
     for inp in todo:
         st = inp['struct']
-        ctx.count('oracle', key=inp['text'], bucket=[f'timing ts={st["ts"][0]}/{st["ts"][1]}',
+        ctx.count('oracle', key=inp['text'] + inp.get('via', ''), bucket=[f'timing ts={st["ts"][0]}/{st["ts"][1]}',
                                                     'timing first=' + str(min(st['first'], 2))],
                   nontrivial=sum(len(i) for _, i in st['bars']) >= 2)
         r = check_timing(inp)
